@@ -19,13 +19,13 @@ RULE = ('fragments simulated from random references: both strands, paired and si
         'inside the motif, motif shifted by one cycle (with and without allow_cycle_shift), CHIC trimmed / untrimmed layouts, invert_strand, '
         'no_umi_cigar_processing; each library also mirrored onto the reverse-complemented reference. Non-trivial = fragment on the reverse '
         'strand or with a clip or cycle shift or broken motif; distinct = distinct (library seed, configuration, fragment id).'
-        ' Plus cut sites on the first / last bases of contigs and scCHIC families of copies within 5 bp under assignment radius 5 (site tag after Molecule.write_tags on the original and the mirrored reference).')
+        ' Plus cut sites on the first / last bases of contigs and scCHIC families of copies within 5 bp under assignment radius 5 (site tag after Molecule.write_tags on the original and the mirrored reference), scCHIC reads that start on the first / last base of a contig (site one or two bases outside), hard clips outside the soft clips, pairs whose read 2 is unmapped and handed over next to read 1.')
 ASSUMPTIONS = ['NLA: the site is the reference coordinate of the C of CATG; CHIC: ligated base -1 (forward) / +1 (reverse)',
                'with no_umi_cigar_processing only the mirror relation is checked (the option defines the absolute value away)',
                'cycle-shifted reads are simulated without soft clip']
 MIN_NONTRIVIAL = {'quick': 3000, 'thorough': 150000}
 REQUIRED_MONITORS = ['obs:nla_fragments', 'obs:chic_fragments', 'obs:cycle_shift', 'obs:motif_broken', 'obs:clipped', 'mirror:fragments',
-                     'cli:records_checked', 'obs:invert_strand', 'obs:single_end', 'obs:sites_at_contig_ends', 'obs:fragments_with_site_0', 'molecule:family_sites_compared', 'obs:non_default_primer_lengths']
+                     'cli:records_checked', 'obs:invert_strand', 'obs:single_end', 'obs:sites_at_contig_ends', 'obs:fragments_with_site_0', 'molecule:family_sites_compared', 'obs:non_default_primer_lengths', 'obs:chic_reads_starting_on_the_first_or_last_base', 'obs:hard_clipped', 'obs:read_2_unmapped_next_to_read_1']
 SHARD_TIMEOUT = {'quick': 900, 'thorough': 5400}
 
 
@@ -43,7 +43,13 @@ def mirror_records(gen, recs):
         m = dict(rec)
         name = gen.refs[rec['tid']][0]
         L = lens[name]
-        ops = re.findall(r'(\d+)([MIDNS])', rec['cigar'])
+        if rec.get('cigar') is None:
+            # an unmapped mate that is placed at its mate's position: it has no strand, it follows its mate
+            m['flag'] = rec['flag'] ^ 32
+            m['_follows_mate'] = True
+            out.append(m)
+            continue
+        ops = re.findall(r'(\d+)([MIDNSH])', rec['cigar'])
         ref_len = sum(int(n) for n, o in ops if o in 'MDN')
         end = rec['pos'] + ref_len
         m['pos'] = L - end
@@ -62,6 +68,9 @@ def mirror_records(gen, recs):
         byname[m['name']].append(m)
     for name, ms in byname.items():
         if len(ms) == 2:
+            for a_, b_ in ((ms[0], ms[1]), (ms[1], ms[0])):
+                if a_.get('_follows_mate'):
+                    a_['pos'] = b_['pos']
             ms[0]['next_pos'], ms[1]['next_pos'] = ms[1]['pos'], ms[0]['pos']
             ms[0]['tlen'], ms[1]['tlen'] = -ms[0].get('tlen', 0), -ms[1].get('tlen', 0)
     return out
@@ -124,6 +133,11 @@ def run_case(case):
                 edge_sites += [(name, 0), (name, ln - 4)]
             else:
                 edge_sites += [(name, 1), (name, ln - 2)]
+                # reads that begin on the very first base of the contig: the ligated base / the base next to it lies just outside (-1, -2),
+                # the mirror image lies just beyond the other end
+                edge_sites += [(name, 0), (name, ln - 1)]
+                if trimmed:
+                    edge_sites += [(name, -1), (name, ln)]
     acc.count('obs:sites_at_contig_ends', len(edge_sites))
     sites = []
     for name, ln in contigs:
@@ -144,7 +158,7 @@ def run_case(case):
         if method == 'chic' and (name, pos) not in edge_sites and r.random() < 0.5:
             fam = {'cell': r.randint(1, 3), 'umi': F.rand_dna(r, 3), 'reverse': r.random() < 0.5, 'id': len(family_of) + 1000 * len(recs)}
         for _ in range(r.randint(1, 4) if fam is None else r.randint(2, 4)):
-            kind = r.choice(['plain'] * 4 + ['clip', 'clip', 'shift', 'broken', 'single'])
+            kind = r.choice(['plain'] * 4 + ['clip', 'clip', 'shift', 'broken', 'single', 'mate_unmapped'])
             reverse = r.random() < 0.5
             if (name, pos) in edge_sites:
                 reverse = pos > 10      # only the strand that points into the contig yields a fragment
@@ -164,6 +178,16 @@ def run_case(case):
                                      r.randint(60, 300), chic_trimmed=trimmed, mismatches=r.choice([0, 0, 1]), **kw)
             if fr is None:
                 continue
+            if kind == 'mate_unmapped' and len(fr) == 2:
+                # read 2 did not align: it is stored unmapped at read 1's position and reaches the fragment class next to its mate
+                r1_, r2_ = fr
+                r1_['flag'] = (r1_['flag'] | 8) & ~2 & ~32
+                r1_['tlen'], r1_['next_pos'] = 0, r1_['pos']
+                fr[1] = dict(r2_, flag=1 | 4 | 128 | (32 if r1_['flag'] & 16 else 0), pos=r1_['pos'], cigar=None, mapq=0, tags={}, next_pos=r1_['pos'], tlen=0)
+                tr['mate_unmapped'] = True
+            if r.random() < 0.15:
+                # hard clips (bases the aligner removed from the record) outside everything else, on either end of either mate
+                tr['hard_clipped'] = F.add_hard_clips(r, fr)
             tr['kind'] = kind
             if fam is not None:
                 family_of[rid] = fam['id']
@@ -208,12 +232,18 @@ def run_case(case):
             acc.count('obs:clipped')
         if t['single_end']:
             acc.count('obs:single_end')
+        if t.get('hard_clipped'):
+            acc.count('obs:hard_clipped')
+        if t.get('mate_unmapped'):
+            acc.count('obs:read_2_unmapped_next_to_read_1')
         wit = {'config': cfg, 'truth': {k: v for k, v in t.items() if k != 'key'}, 'observed': {k: str(v) for k, v in o.items()},
                'mirror_observed': {k: str(v) for k, v in mo.items()},
                'reads': [(x['flag'], x['pos'], x['cigar'], x['seq']) for x in recs if F.id_from_name(x['name']) == rid]}
         strand_txt = 'reverse' if t['reverse'] else 'forward'
         if t['site'] == 0:
             acc.count('obs:fragments_with_site_0')
+        if method == 'chic' and (t['site'] < 0 or t['site'] >= lens[t['contig']]):
+            acc.count('obs:chic_reads_starting_on_the_first_or_last_base')
         expect_valid = True
         if method == 'nla':
             if kind == 'broken':
@@ -318,6 +348,8 @@ def run_case(case):
                 run_multiome_tagging_cmd(cmd)
             with pysam.AlignmentFile(out) as f:
                 for a in f.fetch(until_eof=True):
+                    if a.is_unmapped:
+                        continue    # the unmapped mate of a pair carries no site of its own
                     acc.count('cli:records_checked')
                     rid = F.id_from_name(a.query_name)
                     t = truths[rid]
